@@ -296,7 +296,13 @@ def judge_history(case):
             setup = setups[(op[1] if len(op) > 1 else 0) % nset]
             r = sut(setup.run_all)
             added = [n for n in getattr(setup, "algorithms", {})]
-            if any(not algs_spec[n][1] for n in added):
+            first_bare = next((i_ for i_, n in enumerate(added) if not algs_spec[n][1]), None)
+            if first_bare is not None and raised(r) and r.type != "ValueError" and any(not model[n]["orig"] for n in added[:first_bare]):
+                # an algorithm bound to preprocessed data raised before the one without run parameters was reached
+                j.skip("run-all-raises-on-preprocessed-data")
+                for n in added:
+                    model[n]["unknown"] = True
+            elif any(not algs_spec[n][1] for n in added):
                 j.check(raised(r) and r.type == "ValueError", "missing-params", lambda: f"run_all with an algorithm lacking run parameters: {r!r} (ValueError expected)")
                 # algorithms before the failing one (insertion order) did run
                 for n in added:
